@@ -14,6 +14,8 @@ src = os.path.join(HERE, "replays", pid, "viol-%s.json" % chash(sig))
 if not os.path.exists(src):
     sys.exit("no replay file for %s (%s)" % (sig, src))
 dst = os.path.join(HERE, "replays", pid, "%s-%s.json" % ("fixed" if fixed else "known", chash(sig)))
+if os.path.exists(dst):
+    sys.exit("a replay with this signature exists already (%s): make the signature of the new finding more specific" % dst)
 os.rename(src, dst)
 rel = os.path.relpath(dst, HERE)
 with open(os.path.join(HERE, "KNOWN_FINDINGS.txt"), "a") as f:
